@@ -108,11 +108,11 @@ def r2_provenance(chk, prog):
             n += 1
             size = ctx.origins.of_operand(t.args[2])
             bad = [o for o in size if not (is_limit(o, limit) or len_pred(o))]
-            if lookups and key:
+            if lookups:
                 chk.require(any(len_pred(o) for o in size), "R2", f, "pinned-length-applies",
                             "the parent document pins a length for %s but this fetch is bounded only by %s: a "
                             "longer file is accepted, and a legitimate one is refused when the configured limit "
-                            "is smaller than the pinned length" % (key, sorted(map(repr, size))), ctx.site(bb))
+                            "is smaller than the pinned length" % (key or "this delegated role file", sorted(map(repr, size))), ctx.site(bb))
             chk.require(bool(size) and not bad, "R2", f, "size-bound@L%s" % "fetch",
                         "the size bound of this fetch originates from %s; allowed: the configured `%s`%s — applying "
                         "another file's length refuses legitimate files or over-accepts"
